@@ -16,6 +16,9 @@ mod pool;
 mod c11;
 mod c04;
 mod c08;
+mod c06;
+mod c20;
+mod cli;
 mod util;
 
 use std::path::PathBuf;
@@ -48,6 +51,8 @@ fn main() {
         "c11" => c11::run(&tier, seed, &out),
         "c04" => c04::run(&tier, seed, &out),
         "c08" => c08::run(&tier, seed, &out),
+        "c06" => c06::run(&tier, seed, &out),
+        "c20" => c20::run(&tier, seed, &out),
         "probe" => probe(&out),
         // rfverif tokens <file> [keep]  : the encoded token list of a file (for the C01/C03 validators)
         "tokens" => { let src = std::fs::read_to_string(&args[2]).unwrap_or_default(); println!("{}", toks::encode_tokens(&src, args.get(3).map(|s| s == "keep").unwrap_or(false))); 0 }
